@@ -67,6 +67,21 @@
 #else
 #define LC_parquet_parse_page_header(...)
 #endif
+#ifdef CQV_FN_write_column_metadata
+#define LC_write_column_metadata(...) __VA_ARGS__
+#else
+#define LC_write_column_metadata(...)
+#endif
+#ifdef CQV_FN_write_row_group
+#define LC_write_row_group(...) __VA_ARGS__
+#else
+#define LC_write_row_group(...)
+#endif
+#ifdef CQV_FN_parquet_write_file_metadata
+#define LC_parquet_write_file_metadata(...) __VA_ARGS__
+#else
+#define LC_parquet_write_file_metadata(...)
+#endif
 
 #include <stdlib.h>
 #include "src/thrift/parquet_types.c"
